@@ -18,6 +18,7 @@ import Penguin.Lemmas.MuxReach
 import Penguin.Lemmas.MuxWake
 import Penguin.Lemmas.MuxMono
 import Penguin.Lemmas.MuxEnd
+import Penguin.Lemmas.PairAllDrop
 
 namespace Penguin.C08
 open Penguin Penguin.Mux
@@ -247,5 +248,112 @@ def sampleRun : List Mux.Op :=
 example : (runOps { opts := {} } sampleRun).dead = true ∧
     (runOps { opts := {} } sampleRun).objs.length = 1 ∧ (runOps { opts := {} } sampleRun).handles = [0] := by
   decide
+
+/-! ### Two endpoints, EVERY history: a local drop still flushes (`Model/PairAll.lean`)
+
+`Penguin.PairAll` joins two endpoint models by FIFO wires at the stimulus level (see Props C02,
+`pair_reads_are_prefix_of_peer_writes_every_history`).  The run below is `l1`, then side `a`'s application drops
+its `Multiplexor`, then `l2` — ANY stimuli at either side: application calls, deliveries, sink back-pressure
+(`sinkRoom`), transport faults (`cut`).  `PairAll.Running e`: the task is not finished, not winding down, has
+processed everything delivered to it, and its outbound queue is open.  `PairAll.DDone e`: the drain is over (the
+task has finished, or waits for the peer's Close after its own).  No hypothesis on the id scripts is needed for
+the flush itself. -/
+
+section PairAll
+open Penguin.PairAll
+
+/-- C08, "if the local multiplexor is dropped while the transport is healthy, every frame queued before the
+    drop (data already written, Finish, Reset, datagrams) is still transmitted, in order, before the WebSocket
+    is closed", for two endpoints and every history.  With `p1` the state at the drop and `pf` the final state:
+    there are `Reset` frames `rs` (the rejections of the peer's bind requests that the drop leaves unanswered;
+    nothing else is ever added) such that
+    * once the drain is over (`DDone pf.a`), ALL messages `a`'s sink has taken (`wireMsgs pf.ga.evs`) are: what it
+      had taken before the drop, then the whole queue of the moment of the drop, in order, then `rs`, then the
+      Close — nothing of the queue is missing, nothing reordered, and the queue is empty;
+    * as long as it is not over — the sink may be stalled (`sinkRoom (some 0)`) for any time — what the sink has
+      taken followed by what is still queued is that same sequence (without the Close): nothing is lost on the way;
+    * the wire is FIFO and loses nothing without a cut: the messages delivered to `b` followed by those still on
+      the wire are a prefix of what `a`'s sink has taken, and ALL of it while the wire `a → b` is open (no `cut` at
+      `b`, no Close delivered yet);
+    * `a`'s application has written nothing since (writes fail once the queue is closed). -/
+theorem pair_drop_flushes_everything_every_history (oa ob : Opts) (ra rb : List Nat)
+    (l1 l2 : List (PairAll.Side × Stim)) (q : PS)
+    (hr : Running (PairAll.run (PairAll.init oa ob ra rb) l1).a)
+    (hs : PairAll.step (PairAll.run (PairAll.init oa ob ra rb) l1) .A (.call .dropMux) = some q) :
+    let p1 := PairAll.run (PairAll.init oa ob ra rb) l1
+    let l := l1 ++ (PairAll.Side.A, Stim.call .dropMux) :: l2
+    let pf := PairAll.run (PairAll.init oa ob ra rb) l
+    ∃ rs, allResets rs ∧
+      (DDone pf.a → wireMsgs pf.ga.evs = wireMsgs p1.ga.evs ++ (p1.a.outq ++ rs) ++ [.close] ∧ pf.a.outq = []) ∧
+      (¬ DDone pf.a → wireMsgs pf.ga.evs ++ pf.a.outq = wireMsgs p1.ga.evs ++ (p1.a.outq ++ rs)) ∧
+      dlvMsgs (opsB (PairAll.init oa ob ra rb) l) ++ pf.ab <+: wireMsgs pf.ga.evs ∧
+      (pf.abOpen = true → dlvMsgs (opsB (PairAll.init oa ob ra rb) l) ++ pf.ab = wireMsgs pf.ga.evs) ∧
+      pf.ga.wrote = p1.ga.wrote :=
+  drop_flushes oa ob ra rb l1 l2 q hr hs
+
+/-- The application-level reading for streams (under `PairAll.Cfg`).  After a drop whose drain is over: for a
+    stream object `j` of `b` carrying `x` that still accepts (`canAcc`: `b` holds the slot of `x` for `j`, it was
+    not reset, the handle was not dropped) while the wire is intact, every frame `a`'s application had
+    successfully written on `x` (`wroteX x pf.ga`: the payloads of its `write` calls that answered `wrote`, all
+    of them before the drop) is accepted into `j`, or delivered and not yet processed, or still on the wire — in
+    order, each once.  In particular, once `b` has processed everything up to the Close (no `Push x` left in its
+    inbox or on the wire), the bytes accepted into `j` are exactly the bytes written. -/
+theorem pair_drop_written_reaches_peer_every_history {ra rb : List Nat} (c : Cfg ra rb) (oa ob : Opts)
+    (l1 l2 : List (PairAll.Side × Stim)) (q : PS)
+    (hr : Running (PairAll.run (PairAll.init oa ob ra rb) l1).a)
+    (hs : PairAll.step (PairAll.run (PairAll.init oa ob ra rb) l1) .A (.call .dropMux) = some q)
+    (x j : Nat) (o : Obj) :
+    let pf := PairAll.run (PairAll.init oa ob ra rb) (l1 ++ (PairAll.Side.A, Stim.call .dropMux) :: l2)
+    pf.b.objs[j]? = some o → o.fid = x → canAcc x j pf.b = true → pf.abOpen = true → DDone pf.a →
+    (Log.dataOf pf.gb.accepted j ++ pX x (inMsgs pf.b.inbox) ++ pX x pf.ab = wroteX x pf.ga) ∧
+    (pX x (inMsgs pf.b.inbox) = [] → pX x pf.ab = [] → chunks pf.gb.accepted j = wroteOn x pf.ga.wrote) := by
+  intro pf hj hx hcan hopen hdone
+  have h := drop_written_reaches_peer c oa ob l1 l2 q hr hs x j o hj hx hcan hopen hdone
+  refine ⟨h, fun h1 h2 => ?_⟩
+  rw [h1, h2, List.append_nil, List.append_nil] at h
+  rw [chunks_eq_flatten, h, wroteX_flatten]
+
+/-! Non-vacuity (windows 2, threshold 1; scripts `[7, 8]`, `[9, 10]`): `a` opens flow 7, `b` accepts it; the sink of
+    `a` stalls; `a` writes two frames and sends a datagram (all three stay queued), then drops its `Multiplexor`. -/
+private def dcfg : Mux.Opts := { rwnd := 2, threshold := 1 }
+private def dpre : List (PairAll.Side × Stim) :=
+  [(.A, .call (.open 1 [104] 80)), (.B, .deliver), (.B, .call .accept), (.A, .deliver),
+   (.A, .call (.sinkRoom (some 0))), (.A, .call (.write 0 [1, 2])), (.A, .call (.write 0 [3])),
+   (.A, .call (.sendDgram { fid := 9, host := [104], port := 53, data := [7] }))]
+/-- The sink resumes; the two frames and the datagram are delivered to `b`. -/
+private def dmid : List (PairAll.Side × Stim) := [(.A, .call (.sinkRoom none)), (.B, .deliver), (.B, .deliver), (.B, .deliver)]
+/-- Then the Close is delivered; `b` reads the data. -/
+private def dpost : List (PairAll.Side × Stim) := dmid ++ [(.B, .deliver), (.B, .call (.read 0 9)), (.B, .call (.read 0 9))]
+private def dfull (l2 : List (PairAll.Side × Stim)) : List (PairAll.Side × Stim) :=
+  dpre ++ (PairAll.Side.A, Stim.call .dropMux) :: l2
+
+example : Cfg [7, 8] [9, 10] := ⟨by decide, by decide, by decide⟩
+/- The hypotheses: `a` is running with the three messages queued, and the drop is enabled. -/
+set_option maxRecDepth 8192 in
+example : let p1 := PairAll.run (PairAll.init dcfg dcfg [7, 8] [9, 10]) dpre
+    (p1.a.dead = false ∧ p1.a.draining = none ∧ p1.a.closing = none ∧ p1.a.inbox = [] ∧ p1.a.droppedq = [] ∧
+     p1.a.outClosed = false ∧
+     p1.a.outq = [.frame (.push 7 [1, 2]), .frame (.push 7 [3]), .frame (.datagram 9 53 [104] [7])] ∧
+     (PairAll.step p1 .A (.call .dropMux)).isSome = true) := by decide
+/-- With the sink still stalled the drain is not over: nothing has gone out, everything is still queued. -/
+example : let pf := PairAll.run (PairAll.init dcfg dcfg [7, 8] [9, 10]) (dfull [])
+    (pf.a.draining.isSome = true ∧ pf.a.dead = false ∧ pf.a.outq.length = 3) := by decide
+/-- After the sink resumed and `b` processed the three messages (Close still on the wire): the drain is over,
+    the wire intact, object 0 of `b` still accepts — everything written is accepted (second theorem). -/
+example : let pf := PairAll.run (PairAll.init dcfg dcfg [7, 8] [9, 10]) (dfull dmid)
+    (pf.a.draining = none ∧ pf.ab = [.close] ∧ pf.abOpen = true ∧ canAcc 7 0 pf.b = true ∧ pf.b.inbox = [] ∧
+     pf.b.objs.map (·.fid) = [7] ∧ chunks pf.gb.accepted 0 = [1, 2, 3] ∧ wroteOn 7 pf.ga.wrote = [1, 2, 3]) := by decide
+/- At the end: the sink of `a` took the queue in order, then the Close; all of it was delivered to `b`, in order;
+    `b` read the data, the next read gives end-of-stream, and the datagram is there. -/
+set_option maxRecDepth 8192 in
+example : let pf := PairAll.run (PairAll.init dcfg dcfg [7, 8] [9, 10]) (dfull dpost)
+    (pf.a.draining = none ∧
+     wireMsgs pf.ga.evs = [.frame (.connect 7 2 80 [104]), .frame (.push 7 [1, 2]), .frame (.push 7 [3]),
+       .frame (.datagram 9 53 [104] [7]), .close] ∧
+     dlvMsgs (opsB (PairAll.init dcfg dcfg [7, 8] [9, 10]) (dfull dpost)) = wireMsgs pf.ga.evs ∧ pf.ab = [] ∧
+     chunks pf.gb.returned 0 = [1, 2, 3] ∧ (appRead pf.b 0 9).2 = .eof ∧
+     (applyOp pf.b .recvDgram).2.1 = .dgram { fid := 9, host := [104], port := 53, data := [7] }) := by decide
+
+end PairAll
 
 end Penguin.C08
